@@ -92,8 +92,15 @@ def _one_store(rng, k, ts_name, max_cli, max_srv, source, reception, handler, wo
         else None
     seen = {}
 
+    closes = rng.random() < 0.3
+    also_scu = rng.random() < 0.3
+
     def on_store(self, context, fobj):
-        data = fobj.read() if hasattr(fobj, 'read') else fobj
+        if closes and hasattr(fobj, 'read'):
+            with fobj:                                   # the application closes the file it was handed
+                data = fobj.read()
+        else:
+            data = fobj.read() if hasattr(fobj, 'read') else fobj
         seen['data'] = data
         seen['in_file'] = hasattr(fobj, 'read')
         seen['cls'] = str(context.sop_class)
@@ -123,6 +130,8 @@ def _one_store(rng, k, ts_name, max_cli, max_srv, source, reception, handler, wo
         srv = type('Srv', (aemod.AE,), dict(on_receive_store=on_store))('SERVER', 0, supported_ts=[ts], max_pdu_length=max_srv)
     srv.handle_error = lambda *a: None
     srv.add_scp(mem_scp if reception == 'memory' else sopclass.storage_scp)
+    if also_scu and reception != 'memory':
+        srv.add_scu(sopclass.storage_scu, [CT])          # a store-and-forward node: SCP first, then SCU for the same class
     result = None
     err = None
     with loopback.serving(srv) as port:
@@ -162,6 +171,7 @@ def _one_store(rng, k, ts_name, max_cli, max_srv, source, reception, handler, wo
         cbytes(seen.get('cls', '').encode()), cbytes(seen_inst.encode()),
         'HError' if handler is None else '(HStatus %d)' % handler, st_back, cbool(parses))
     human = dict(k=k, ts=ts_name, max_client=max_cli, max_server=max_srv, source=source, file_variant=file_variant,
+                 handler_closes_file=closes, server_also_scu=also_scu,
                  reception=reception,
                  handler=('EventHandlingError' if handler is None else hex(handler)), status_back=hex(st_back), error=err,
                  sent_len=len(expected), received_len=len(received), in_file=in_file, file_readable_and_equal=parses)
